@@ -100,7 +100,9 @@ Step(S, ev) ==
       put(E2, W2) == [S EXCEPT !.ws[w] = [W2 EXCEPT !.ents = E2]]
       panic == ev.panic # ""
   IN
-  CASE ev.op = "Create" ->
+  CASE ev.op = "Panic" ->       \* an operation that must succeed panicked inside the library
+         [S |-> S, f |-> {F(p, "operation panicked", <<ev.in, ev.msg>>) : p \in (IF ev.in \in {"create", "ecreate"} THEN {"C01", "C15"} ELSE {"C14", "C15"})}]
+    [] ev.op = "Create" ->
          LET E2 == FnSet(E, ev.h, <<None, ev.a, ev.b, None>>) IN
          [S |-> put(E2, [W EXCEPT !.issued = @ \cup {ev.h}]),
           f |-> cmp(E2, "C15", "create") \cup (IF ev.h \in W.issued THEN {F("C01", "handle not fresh", ev.h)} ELSE {})]
